@@ -94,10 +94,17 @@ def decision_reads(repo, names):
     """{name: [(fi, test node)]}: tests (if / conditional expression / while / assert / comprehension filter /
     getattr-with-default / hasattr) in the core modules that read one of the state names"""
     out = {}
+    EMITS = ("add_constraint", "PrivVal", "PubVal", "ConstVal", "PrivValBool", "PubValBool", "PrivValFxp", "PubValFxp", "to_bits", "from_bits",
+             "assert_", "check_", "if_then_else", "LinComb", "lin_comb", ".lc", "add_guard", "restore_guard", "guarded")
     for mn in CORE:
         m = repo.module(mn)
         for fi in m.functions.values():
             if isinstance(fi.node, ast.Lambda):
+                continue
+            # the rule is about what is EMITTED: a function that neither allocates, emits, converts nor touches the guard (exit-hook
+            # bookkeeping, option parsing) cannot make emission depend on history
+            body_txt = norm(fi.node)
+            if not any(k in body_txt for k in EMITS):
                 continue
             # locals that ARE a piece of persistent state (cache = self.__dict__.setdefault("_bits", {}); tbl = obj._memo):
             # a test on the local is a test on the state (such locals are updated in place, so def-use substitution skips them)
